@@ -175,8 +175,10 @@ class Publish:
 
         self.data = data
 
-        # XXX: Use the MutableFileVersion instead.
-        self.datalength = self._node.get_size()
+        # The size of the version being updated (verinfo[4] is its data
+        # length). The node's cached size can be stale: it is not refreshed
+        # by a previous update() that extended the file.
+        self.datalength = version[4]
         if data.get_size() > self.datalength:
             self.datalength = data.get_size()
 
